@@ -532,6 +532,100 @@ func locate(fd *ast.FuncDecl, st site) (ast.Node, string) {
 	return found, ""
 }
 
+// jumpTable: every `operation{execute: opX, ..., validateStack: makeStackFunc(p, q) | makeDupStackFunc(n) |
+// makeSwapStackFunc(n), ...}` literal of jump_table.go, keyed by the opcode it is assigned to
+// (`instructionSet[OP] = operation{...}` and `OP: {...}` inside the frontier table), later tables overriding
+// earlier ones in the order frontier, homestead, byzantium, constantinople.
+func jumpTable(repo string) string {
+	f, err := parse(repo, "eth/core/vm/jump_table.go")
+	if err != nil {
+		return ""
+	}
+	type ent struct {
+		exec        string
+		pops, pushs int
+	}
+	tab := map[string]ent{}
+	order := []string{}
+	read := func(op string, lit *ast.CompositeLit) {
+		e := ent{pops: -1}
+		for _, el := range lit.Elts {
+			kv, ok := el.(*ast.KeyValueExpr)
+			if !ok {
+				continue
+			}
+			switch src(kv.Key) {
+			case "execute":
+				e.exec = src(kv.Value)
+			case "validateStack":
+				if c, ok := kv.Value.(*ast.CallExpr); ok {
+					arg := func(i int) int {
+						var n int
+						fmt.Sscanf(src(c.Args[i]), "%v", &n)
+						return n
+					}
+					switch src(c.Fun) {
+					case "makeStackFunc":
+						e.pops, e.pushs = arg(0), arg(1)
+					case "makeDupStackFunc":
+						e.pops, e.pushs = arg(0), arg(0)+1
+					case "makeSwapStackFunc":
+						e.pops, e.pushs = arg(0), arg(0) // makeSwapStackFunc(n+1) for SWAPn
+					}
+				}
+			}
+		}
+		if e.exec != "" && e.pops >= 0 {
+			if _, seen := tab[op]; !seen {
+				order = append(order, op)
+			}
+			tab[op] = e
+		}
+	}
+	for _, fn := range []string{"newFrontierInstructionSet", "newHomesteadInstructionSet", "newByzantiumInstructionSet", "newConstantinopleInstructionSet"} {
+		fd := findFunc(f, fn)
+		if fd == nil {
+			continue
+		}
+		ast.Inspect(fd.Body, func(n ast.Node) bool {
+			switch x := n.(type) {
+			case *ast.AssignStmt:
+				if len(x.Lhs) == 1 && len(x.Rhs) == 1 {
+					if ix, ok := x.Lhs[0].(*ast.IndexExpr); ok {
+						if lit, ok := x.Rhs[0].(*ast.CompositeLit); ok {
+							read(src(ix.Index), lit)
+						}
+					}
+				}
+			case *ast.KeyValueExpr:
+				if lit, ok := x.Value.(*ast.CompositeLit); ok {
+					if id, ok := x.Key.(*ast.Ident); ok && strings.ToUpper(id.Name) == id.Name {
+						read(id.Name, lit)
+					}
+				}
+			}
+			return true
+		})
+	}
+	if len(order) == 0 {
+		return ""
+	}
+	var sb strings.Builder
+	sb.WriteString("/-- eth/core/vm/jump_table.go: opcode, execute function, stack items needed, stack items left in their place\n" +
+		"    (the Constantinople table: later instruction sets override earlier ones) -/\n" +
+		"def jumpTable : List (String × String × Nat × Nat) := [\n")
+	for i, op := range order {
+		e := tab[op]
+		sep := ","
+		if i == len(order)-1 {
+			sep = ""
+		}
+		fmt.Fprintf(&sb, "  (%q, %q, %d, %d)%s\n", op, e.exec, e.pops, e.pushs, sep)
+	}
+	sb.WriteString("]\n\n")
+	return sb.String()
+}
+
 func main() {
 	repo := flag.String("repo", "/repo", "repository root")
 	out := flag.String("out", "", "output directory (lean/AnnVerif/Gen)")
@@ -663,6 +757,15 @@ func main() {
 		}
 		fmt.Fprintf(&sb, "/-- %s, func %s (%s): `%s` -/\ndef %s%s%s : %s :=\n  %s\n\n", st.file, st.fn, st.props,
 			strings.ReplaceAll(orig, "-/", "- /"), prefix, st.name, params, typ, body)
+	}
+	// the EVM jump table: opcode -> (execute function, stack items it needs, stack items it leaves for them)
+	if jt := jumpTable(*repo); jt != "" {
+		sb.WriteString(jt)
+	} else {
+		problems = append(problems, "jump table: no operation literals found in eth/core/vm/jump_table.go")
+		if len(must) == 0 || must["jumpTable"] {
+			fatal = true
+		}
 	}
 	sb.WriteString("end AnnVerif.Gen\n")
 
